@@ -118,7 +118,9 @@ CFGS = {
                 MaxTcs=0, MaxTrks=5, MaxLen=3, Depth=5, Ops="OpsTf"),
 }
 QUICK = ["em3", "df3", "tc4", "tr3", "tl3", "io3", "tkq", "tfq", "sysq", "pl3"]
-THOROUGH = ["em4", "df4", "em5", "tc5", "tr4", "tl4", "io4", "tk4", "tf4", "tk5", "sys4"]
+# em5 (every sequence of five emulsion operations: 3.8 GB of transitions, more than two hours of replay) and tk5 are defined
+# above but not part of the registered tier
+THOROUGH = ["em4", "df4", "tc5", "tr4", "tl4", "io4", "tk4", "tf4", "sys4"]
 
 
 def cfg_text(name: str, observe: str = "ObservePrint") -> str:
